@@ -366,6 +366,22 @@ func (h *Handler) handleCopyMove(w http.ResponseWriter, r *http.Request) (status
 	if dst == src {
 		return http.StatusForbidden, errDestinationEqualsSource
 	}
+	// Compare the resources, not their spellings: "/a/", "/./a" and "/a" name
+	// the same resource, and overwriting an ancestor of the source (or, for
+	// MOVE, moving into a descendant) would delete the source first.
+	srcClean, dstClean := slashClean(src), slashClean(dst)
+	inside := func(p, root string) bool {
+		return p != root && (root == "/" || strings.HasPrefix(p, root+"/"))
+	}
+	switch {
+	case dstClean == srcClean:
+		return http.StatusForbidden, errDestinationEqualsSource
+	case inside(srcClean, dstClean):
+		return http.StatusForbidden, errInvalidDestination
+	case r.Method == "MOVE" && inside(dstClean, srcClean):
+		// RFC 4918, section 9.9.4: a collection cannot be moved into itself.
+		return http.StatusForbidden, errInvalidDestination
+	}
 
 	ctx := r.Context()
 
